@@ -552,14 +552,14 @@ func confYAML(c *configs.SchedulerConfig) []byte {
 	return b
 }
 
-func genConfCase(r *Rng, tier string) ConfCase {
+func genConfCase(r *Rng, tier string, limitChain bool) ConfCase {
 	g := &confGen{r: r, viol: []int{0, 3, 6, 10, 20}[r.Intn(5)], noise: []int{0, 3, 6, 10, 20}[r.Intn(5)], hier: []int{0, 0, 10, 30, 60}[r.Intn(5)]}
 	if r.Chance(10) {
 		g.viol, g.noise = 0, 0 // a clean configuration
 	}
 	cfg := g.config()
 	kind := "valid"
-	if r.Chance(14) {
+	if limitChain {
 		cfg, kind = g.limitScenario(), "limitchain"
 	}
 	b := confYAML(cfg)
@@ -604,13 +604,17 @@ From Coq Require Import List NArith Bool. From Coq Require String. Import ListNo
 
 func confEngine(o *Opts) {
 	rng := NewRng(o.Seed)
-	st := NewStats("conf", o.Seed, "configuration grammar generator (queue trees depth<=4 with budgets handed down, sparse resource maps with unit suffixes, guaranteed/max, maxapplications, named/wildcard user and group limits, ACL strings, placement rule chains with parents and filters, child templates, properties, node sort policy, preemption flags, 0-2 partitions), 2-5% rule-breaking decisions, 22% YAML node mutations (missing/duplicate/unknown keys, wrong scalar types, nil vs empty, truncation); each document validated 3 times + 2 permuted renderings, loaded into a new scheduler and as a reload of a running one; non-trivial = accepted configuration with at least 3 queues, or a rejection by a hierarchy rule (not by decoding); distinct by hash of the case term")
+	st := NewStats("conf", o.Seed, "configuration grammar generator (queue trees depth<=4 with budgets handed down, sparse resource maps with unit suffixes, guaranteed/max, maxapplications, named/wildcard user and group limits, ACL strings, placement rule chains with parents and filters, child templates, properties, node sort policy, preemption flags, 0-2 partitions), per-mille rule-breaking decisions, plus N/2 small targeted limit-chain documents (named / wildcard user and group entries on non adjacent levels with boundary values: equal, one more, absent), 22% YAML node mutations (missing/duplicate/unknown keys, wrong scalar types, nil vs empty, truncation); each document validated 3 times + 2 permuted renderings, loaded into a new scheduler and as a reload of a running one; non-trivial = accepted configuration with at least 3 queues, or a rejection by a hierarchy rule (not by decoding); distinct by hash of the case term")
 	var all ConfCases
 	if o.Replay != "" {
 		readJSON(o.Replay, &all)
 	} else {
 		for i := 0; i < o.N; i++ {
-			all.Cases = append(all.Cases, genConfCase(rng.Fork(), o.Tier))
+			all.Cases = append(all.Cases, genConfCase(rng.Fork(), o.Tier, false))
+		}
+		// targeted stream: small documents, cheap to evaluate
+		for i := 0; i < o.N/2; i++ {
+			all.Cases = append(all.Cases, genConfCase(rng.Fork(), o.Tier, true))
 		}
 	}
 	terms := []string{}
